@@ -172,6 +172,21 @@ fn case_body(line: &str) -> String {
                 None => "convert=panic".to_string(),
             }
         }
+        // "S": a SESSION of several source texts evaluated one after the other on this thread against one heap
+        // and one environment (REPL, wasm host, any embedding that reads programs in a loop); a = JSON array of
+        // the texts, b = inputs JSON text (optional)
+        "S" => {
+            let doc = match parts.get(1).and_then(|h| text_of(h)) {
+                Some(s) => s,
+                None => return "badutf8".into(),
+            };
+            let texts: Vec<String> = match serde_json::from_str::<Vec<String>>(&doc) {
+                Ok(t) => t,
+                Err(_) => return "badsession".into(),
+            };
+            let inputs = parts.get(2).and_then(|h| text_of(h));
+            session_case(&mut ctx, &texts, inputs.as_deref())
+        }
         _ => "badkind".into(),
     };
     if ctx.events.is_empty() {
@@ -519,4 +534,325 @@ fn pipeline(ctx: &mut Ctx, src: &str, inputs_json: Option<&str>, full: bool, bar
         summary.push("died=1".into());
     }
     summary.join(",")
+}
+
+// ---------------------------------------------------------------- "S": sessions of several source texts
+// Several DIFFERENT source texts are evaluated one after the other on ONE thread against one heap and one
+// environment, the way the REPL (`accumulated_input` is cleared and refilled), the wasm bindings (a new string per
+// call) and any embedding that reads programs in a loop do.  The same session is run under four placements of the
+// text in memory:
+//   session_reused     one buffer with enough capacity, `clear()` + `push_str()` per text (same address every time)
+//   session_fresh      a fresh String per text, dropped after use (the allocator may hand the block out again)
+//   session_separate   every text in its own String, all alive (no two texts ever share an address)  = reference
+//   session_joined     all texts joined by a line feed, evaluated as one program
+// Oracles, per reported error: the location lies inside the attached text on character boundaries
+// (check_runtime_error_span); the attached text is the text being evaluated or an earlier text of the session
+// (`foreign-source`; only without JSON inputs, whose functions carry their own text); message, location, attached
+// text and rendered report are the same under reused / fresh / separate placement (`differs-from-separate-buffers`);
+// and when the joined text has the same statements, every value, message and the text UNDER the location is the
+// same as in the session (`differs-from-one-program`).
+#[derive(Clone, PartialEq)]
+struct SRec {
+    kind: u8, // 0 value, 1 reported error, 2 parse reject, 3 panic
+    val: String,
+    located: bool,
+    a: usize,
+    b: usize,
+    src: Option<String>,
+    shown: String,
+}
+
+impl SRec {
+    fn plain(kind: u8, val: String) -> SRec {
+        SRec { kind, val, located: false, a: 0, b: 0, src: None, shown: String::new() }
+    }
+    fn snippet(&self) -> Option<&str> {
+        match (&self.src, self.located) {
+            (Some(s), true) if self.a <= self.b && self.b <= s.len() && s.is_char_boundary(self.a) && s.is_char_boundary(self.b) => {
+                Some(&s[self.a..self.b])
+            }
+            _ => None,
+        }
+    }
+}
+
+fn session_text(ctx: &mut Ctx, stage: &str, text: &str, heap: &Rc<RefCell<Heap>>, env: &Rc<Environment>, values: bool) -> Vec<SRec> {
+    let mut out: Vec<SRec> = Vec::new();
+    let pairs = match ctx.guard(&format!("{}_parse", stage), || get_pairs(text)) {
+        Some(Ok(p)) => p,
+        Some(Err(e)) => {
+            check_pest_error(ctx, text, &e);
+            let (a, b) = match e.location {
+                pest::error::InputLocation::Pos(p) => (p, p),
+                pest::error::InputLocation::Span((a, b)) => (a, b),
+            };
+            let shown = ctx.guard(&format!("{}_parse_err_display", stage), || format!("{}", e)).unwrap_or_default();
+            out.push(SRec { kind: 2, val: String::new(), located: true, a, b, src: None, shown });
+            return out;
+        }
+        None => {
+            out.push(SRec::plain(3, "parse".into()));
+            return out;
+        }
+    };
+    for pair in pairs {
+        if pair.as_rule() != Rule::statement {
+            continue;
+        }
+        let first = match pair.into_inner().next() {
+            Some(p) => p,
+            None => continue,
+        };
+        let rule = first.as_rule();
+        if rule != Rule::expression && rule != Rule::output_declaration {
+            continue;
+        }
+        let r = ctx.guard(stage, || evaluate_pairs(first.clone().into_inner(), Rc::clone(heap), Rc::clone(env), 0, text));
+        match r {
+            None => {
+                out.push(SRec::plain(3, "evaluate".into()));
+                return out; // like the pipeline: nothing is evaluated after a panic
+            }
+            Some(Ok(v)) => {
+                let s = if values {
+                    ctx.guard(&format!("{}_stringify", stage), || v.stringify_internal(&heap.borrow())).unwrap_or_default()
+                } else {
+                    String::new()
+                };
+                out.push(SRec::plain(0, s));
+            }
+            Some(Err(e)) => {
+                check_runtime_error_span(ctx, stage, &e);
+                let shown = ctx.guard(&format!("{}_error_display", stage), || format!("{}", e)).unwrap_or_default();
+                check_report_shows_location(ctx, stage, &e, &shown);
+                let (located, a, b) = match &e.span {
+                    Some(s) => (true, s.start_byte, s.end_byte),
+                    None => (false, 0, 0),
+                };
+                out.push(SRec { kind: 1, val: e.message.clone(), located, a, b, src: e.source.as_ref().map(|s| s.to_string()), shown });
+            }
+        }
+    }
+    out
+}
+
+fn session_run(ctx: &mut Ctx, stage: &str, texts: &[String], joined: &str, inputs_json: Option<&str>, placement: usize, values: bool) -> Vec<Vec<SRec>> {
+    let heap = Rc::new(RefCell::new(Heap::new()));
+    let env = Rc::new(Environment::new());
+    let mut inputs_map: IndexMap<String, Value> = IndexMap::new();
+    if let Some(js) = inputs_json {
+        if let Ok(v) = serde_json::from_str::<serde_json::Value>(js) {
+            let items: Vec<(String, serde_json::Value)> = match v {
+                serde_json::Value::Object(obj) => obj.into_iter().collect(),
+                other => vec![("value_1".to_string(), other)],
+            };
+            for (k, jv) in items.iter() {
+                if let Some(ser) = ctx.guard("inputs_from_json", || SerializableValue::from_json(jv)) {
+                    if let Some(Ok(val)) = ctx.guard("inputs_to_value", || ser.to_value(&mut heap.borrow_mut())) {
+                        inputs_map.insert(k.clone(), val);
+                    }
+                }
+            }
+        }
+    }
+    let rec = heap.borrow_mut().insert_record(inputs_map);
+    env.insert("inputs".to_string(), rec);
+
+    let mut out: Vec<Vec<SRec>> = Vec::new();
+    let dead = |o: &Vec<Vec<SRec>>| o.last().and_then(|v| v.last()).map(|r| r.kind == 3).unwrap_or(false);
+    match placement {
+        0 => {
+            let cap = texts.iter().map(|t| t.len()).max().unwrap_or(0) + 64;
+            let mut buffer = String::with_capacity(cap);
+            for t in texts {
+                buffer.clear();
+                buffer.push_str(t);
+                out.push(session_text(ctx, stage, &buffer, &heap, &env, values));
+                if dead(&out) {
+                    break;
+                }
+            }
+        }
+        1 => {
+            for t in texts {
+                let fresh = String::from(t.as_str());
+                out.push(session_text(ctx, stage, &fresh, &heap, &env, values));
+                drop(fresh);
+                if dead(&out) {
+                    break;
+                }
+            }
+        }
+        2 => {
+            for t in texts {
+                out.push(session_text(ctx, stage, t, &heap, &env, values));
+                if dead(&out) {
+                    break;
+                }
+            }
+        }
+        _ => out.push(session_text(ctx, stage, joined, &heap, &env, values)),
+    }
+    out
+}
+
+fn session_case(ctx: &mut Ctx, texts: &[String], inputs_json: Option<&str>) -> String {
+    const NAMES: [&str; 4] = ["session_reused", "session_fresh", "session_separate", "session_joined"];
+    let values = !texts.iter().any(|t| t.contains("time_now"));
+    let joined = texts.join("\n");
+    let mut runs: Vec<Vec<Vec<SRec>>> = Vec::new();
+    for p in 0..4 {
+        runs.push(session_run(ctx, NAMES[p], texts, &joined, inputs_json, p, values));
+    }
+    let event = |ctx: &mut Ctx, stage: &str, r: Option<&SRec>, why: &str, i: usize, k: usize| {
+        let (a, b, len) = match r {
+            Some(r) => (r.a, r.b, r.src.as_ref().map(|s| s.len()).unwrap_or(0)),
+            None => (0, 0, 0),
+        };
+        ctx.events.push(format!("SPAN/{}/{}-{}/{}/{}/text{}.stmt{}", stage, a, b, len, why, i, k));
+    };
+
+    // ---- the attached text is one of the texts it can refer to
+    if inputs_json.is_none() {
+        for p in 0..4 {
+            'placement: for (i, recs) in runs[p].iter().enumerate() {
+                for (k, r) in recs.iter().enumerate() {
+                    if let (1, Some(s)) = (r.kind, &r.src) {
+                        let fine = if p == 3 { *s == joined } else { texts[..=i.min(texts.len() - 1)].iter().any(|t| t == s) };
+                        if !fine {
+                            event(ctx, NAMES[p], Some(r), "foreign-source", i, k);
+                            break 'placement;
+                        }
+                    }
+                }
+            }
+        }
+    }
+    // ---- placement invariance
+    for p in 0..2 {
+        if runs[p] == runs[2] {
+            continue;
+        }
+        let mut found = false;
+        for i in 0..runs[p].len().max(runs[2].len()) {
+            let (x, y) = (runs[p].get(i), runs[2].get(i));
+            let n = x.map(|v| v.len()).unwrap_or(0).max(y.map(|v| v.len()).unwrap_or(0));
+            for k in 0..n {
+                let (rx, ry) = (x.and_then(|v| v.get(k)), y.and_then(|v| v.get(k)));
+                if rx != ry {
+                    event(ctx, NAMES[p], rx.or(ry), "differs-from-separate-buffers", i, k);
+                    found = true;
+                    break;
+                }
+            }
+            if found {
+                break;
+            }
+        }
+    }
+    // ---- one program = the session, when the joined text has the same statements
+    let flat: Vec<&SRec> = runs[2].iter().flat_map(|v| v.iter()).collect();
+    let rejects = flat.iter().filter(|r| r.kind == 2).count();
+    let one = &runs[3][0];
+    let joined_cmp = if rejects == 0 && flat.len() == one.len() && !one.iter().any(|r| r.kind == 2) {
+        for (k, (x, y)) in flat.iter().zip(one.iter()).enumerate() {
+            if x.kind != y.kind || x.val != y.val || x.located != y.located || x.snippet() != y.snippet() {
+                event(ctx, NAMES[3], Some(y), "differs-from-one-program", 0, k);
+                break;
+            }
+        }
+        "cmp"
+    } else {
+        "skip"
+    };
+
+    // ---- what the session reached (reference placement)
+    let first_len = texts.first().map(|t| t.len()).unwrap_or(0);
+    let (mut ok, mut err, mut located, mut earlier, mut beyond_first, mut within_first, mut panics) = (0, 0, 0, 0, 0, 0, 0);
+    for (i, recs) in runs[2].iter().enumerate() {
+        for r in recs {
+            match r.kind {
+                0 => ok += 1,
+                1 => {
+                    err += 1;
+                    if r.located {
+                        located += 1;
+                        if i > 0 {
+                            if r.b > first_len {
+                                beyond_first += 1;
+                            } else {
+                                within_first += 1;
+                            }
+                        }
+                        if let Some(s) = &r.src {
+                            if i < texts.len() && *s != texts[i] {
+                                earlier += 1;
+                            }
+                        }
+                    }
+                }
+                3 => panics += 1,
+                _ => {}
+            }
+        }
+    }
+    format!(
+        "parse={},texts={},stmts={},ok={},err={},located={},later_beyond_first={},later_within_first={},earlier_text={},panics={},joined={}",
+        if rejects == 0 { "ok" } else { "reject" },
+        texts.len(),
+        flat.len() - rejects,
+        ok,
+        err,
+        located,
+        beyond_first,
+        within_first,
+        earlier,
+        panics,
+        joined_cmp
+    )
+}
+
+/// colour escape sequences (`ESC [ ... letter`) removed
+fn strip_ansi(text: &str) -> String {
+    let mut out = String::new();
+    let mut chars = text.chars();
+    while let Some(c) = chars.next() {
+        if c == '\u{1b}' {
+            for d in chars.by_ref() {
+                if d.is_ascii_alphabetic() {
+                    break;
+                }
+            }
+        } else {
+            out.push(c);
+        }
+    }
+    out
+}
+
+/// The rendered report of an error with a (valid, non-empty) location shows the source line the location starts in.
+/// A report that silently loses its snippet, or shows another line, refers to a place outside / elsewhere in the text.
+/// why = report-omits-located-line            the attached text is ASCII up to the end of the location
+///       report-omits-located-line-nonascii   there are multi-byte characters at or before the location
+fn check_report_shows_location(ctx: &mut Ctx, stage: &str, e: &RuntimeError, shown: &str) {
+    const BREAKS: [char; 7] = ['\n', '\r', '\u{b}', '\u{c}', '\u{85}', '\u{2028}', '\u{2029}'];
+    let (span, source) = match (&e.span, &e.source) {
+        (Some(sp), Some(so)) => (sp, so),
+        _ => return,
+    };
+    let (a, b) = (span.start_byte, span.end_byte);
+    if !(a < b && b <= source.len() && source.is_char_boundary(a) && source.is_char_boundary(b)) || shown.is_empty() {
+        return;
+    }
+    let start = source[..a].char_indices().rev().find(|(_, c)| BREAKS.contains(c)).map(|(i, c)| i + c.len_utf8()).unwrap_or(0);
+    let end = source[a..].find(|c: char| BREAKS.contains(&c)).map(|i| a + i).unwrap_or(source.len());
+    let line = &source[start..end];
+    let want = line.trim_end();
+    if line.contains('\t') || want.trim().is_empty() {
+        return;
+    }
+    if !strip_ansi(shown).contains(want) {
+        let why = if source[..b].is_ascii() { "report-omits-located-line" } else { "report-omits-located-line-nonascii" };
+        ctx.span_event(stage, a, b, source.len(), why);
+    }
 }
